@@ -55,26 +55,31 @@ package cmd
 
 //@ func (*rateLimitOptions).validate
 //@   property C20
+//@   nilrecv
 //@   ensures nil-section-rejected: o == nil ==> err != nil
 //@   ensures err == nil ==> o.Count > 0 && o.Interval.Duration > 0 && o.SubnetKeyLen > 0
 
 //@ func (*allowListConfig).validate
 //@   property C20
+//@   nilrecv
 //@   ensures nil-section-rejected: c == nil ==> err != nil
 //@   ensures err == nil ==> (c.Type == "backend" || c.Type == "consul") && c.RefreshIvl.Duration > 0
 
 //@ func (*connLimitConfig).validate
 //@   property C20
+//@   nilrecv
 //@   ensures nil-section-rejected: c == nil ==> err != nil
 //@   ensures thresholds-consistent: err == nil && c.Enabled ==> c.Stop >= 1 && c.Resume <= c.Stop
 
 //@ func (*ratelimitTCPConfig).validate
 //@   property C20
+//@   nilrecv
 //@   ensures nil-section-rejected: c == nil ==> err != nil
 //@   ensures err == nil ==> c.MaxPipelineCount > 0
 
 //@ func (*ratelimitQUICConfig).validate
 //@   property C20
+//@   nilrecv
 //@   ensures nil-section-rejected: c == nil ==> err != nil
 //@   ensures err == nil ==> c.MaxStreamsPerPeer > 0
 
@@ -90,6 +95,7 @@ package cmd
 
 //@ func (*rateLimitConfig).validate
 //@   property C20
+//@   nilrecv
 //@   ensures nil-section-rejected: c == nil ==> err != nil
 //@   ensures accepted-is-serviceable: err == nil ==> RLOK(c)
 
@@ -104,6 +110,7 @@ package cmd
 
 //@ func (*ttlOverride).validate
 //@   property C20
+//@   nilrecv
 //@   ensures nil-section-rejected: c == nil ==> err != nil
 //@   ensures err == nil ==> c.Min.Duration > 0
 
@@ -111,6 +118,7 @@ package cmd
 // size (gcache panics on size <= 0).
 //@ func (*cacheConfig).validate
 //@   property C20
+//@   nilrecv
 //@   ensures nil-section-rejected: c == nil ==> err != nil
 //@   ensures accepted-is-serviceable: err == nil ==> (c.Type == "simple" || c.Type == "ecs") && c.Size >= 0 &&
 //@             (c.Type == "ecs" && c.Size > 0 ==> c.ECSSize > 0) && c.TTLOverride != nil && c.TTLOverride.Min.Duration > 0
